@@ -406,6 +406,11 @@ func runFaultSuite(rep *Report, tier string, seed int64, prop string) {
 		return
 	}
 	if prop == "C03" {
+		for _, api := range apis() {
+			for _, cause := range []string{"cancel", "transport"} {
+				c03ClosureRunningAtLinkEnd(rep, prop, api, cause)
+			}
+		}
 		n := 150
 		if tier == "thorough" {
 			n = 3000
@@ -420,6 +425,9 @@ func runFaultSuite(rep *Report, tier string, seed int64, prop string) {
 		rep.Extra["hammer_repetitions"] = n
 	}
 	if prop == "C16" {
+		for _, api := range apis() {
+			c16ManyInFlight(rep, prop, api, 1300)
+		}
 		for _, api := range apis() {
 			for _, how := range []string{"cancelled", "deadline"} {
 				rep.Evaluations++
